@@ -44,6 +44,9 @@ pub enum EOp {
     TrainCycle,
     /// log_served_search_accesses (what the Search RPC calls after answering)
     LogServed,
+    /// flush_hot_tier(false): the "is a drain due?" path (needs_flush) the background flusher and
+    /// the FlushHotTier RPC without force take
+    FlushIfDue,
 }
 
 impl EOp {
@@ -74,6 +77,7 @@ impl EOp {
             EOp::FilterIdsScan => "ids_for_metadata_filter(uncompilable)".into(),
             EOp::TrainCycle => "training_cycle".into(),
             EOp::LogServed => "log_served_search_accesses".into(),
+            EOp::FlushIfDue => "flush_hot_tier(if due)".into(),
         }
     }
     pub fn kind(&self) -> &'static str {
@@ -103,6 +107,7 @@ impl EOp {
             EOp::FilterIdsScan => "ids_for_metadata_filter_scan",
             EOp::TrainCycle => "training_cycle",
             EOp::LogServed => "log_served",
+            EOp::FlushIfDue => "flush_if_due",
         }
     }
     pub fn needs_persistence(&self) -> bool {
@@ -217,6 +222,10 @@ pub fn run_op(te: &TieredEngine, op: &EOp) -> Obs {
         }
         EOp::LogServed => {
             let _ = te.log_served_search_accesses(&[1, 2]);
+            Obs::Other
+        }
+        EOp::FlushIfDue => {
+            let _ = te.flush_hot_tier(false);
             Obs::Other
         }
         EOp::TrainCycle => {
